@@ -325,6 +325,7 @@ func checkC14(w *World, r *Run) {
 		}
 	}
 
+	checkC14PartRows(w, r)
 	checkC14SQL(w, r, ruleSQL)
 	checkC14Share(w, r, ruleShare)
 	r.NotCovered("byte identity of relocated parts (the copy loop streams GetPart into PutPart: C15); that configuration maps classes to the intended stores; reads after a store was removed from the configuration")
@@ -544,4 +545,70 @@ func checkC14Share(w *World, r *Run, rule string) {
 			r.Bad(rule, name+": share/relocate branches", top.Pos(), "the expected sharing and relocation branches were not found")
 		}
 	}
+}
+
+// checkC14PartRows: wherever the SQL metadata store builds a metadatastore.Part from a part
+// row, every field of Part that the row records — the store name above all — is copied;
+// a Part without its StoreName is looked up in the default store.
+func checkC14PartRows(w *World, r *Run) {
+	rule := r.Rule("part-rows-keep-their-store-name", "F3",
+		"every metadatastore.Part the SQL metadata store builds from a part row (Id ← entity.PartId) also sets StoreName ← entity.PartStoreName, ETag, Size and the five checksums from the same row", 3)
+	partT := w.Named(relMDStore, "Part")
+	if partT == nil {
+		r.Anchor(rule, "metadatastore.Part")
+		return
+	}
+	want := map[string]string{"Id": "PartId", "StoreName": "PartStoreName", "ETag": "ETag", "Size": "Size",
+		"ChecksumCRC32": "ChecksumCRC32", "ChecksumCRC32C": "ChecksumCRC32C", "ChecksumCRC64NVME": "ChecksumCRC64NVME", "ChecksumSHA1": "ChecksumSHA1", "ChecksumSHA256": "ChecksumSHA256"}
+	n := 0
+	for _, fn := range w.allFuncs {
+		if fn.Pkg == nil || pkgRel(fn.Pkg.Pkg) != relSQLStore {
+			continue
+		}
+		// group field stores by the literal (Alloc) they fill
+		lits := map[ssa.Value]map[string]string{}
+		var order []ssa.Value
+		for _, b := range fn.Blocks {
+			for _, ins := range b.Instrs {
+				st, ok := ins.(*ssa.Store)
+				if !ok {
+					continue
+				}
+				fa, ok := st.Addr.(*ssa.FieldAddr)
+				if !ok || structNameOf(fa.X.Type()) != "Part" {
+					continue
+				}
+				src, _ := fieldLoadName(st.Val)
+				if src == "" {
+					if f, ok := st.Val.(*ssa.Field); ok {
+						src = fieldName(f.X.Type(), f.Field)
+					}
+				}
+				if lits[fa.X] == nil {
+					lits[fa.X] = map[string]string{}
+					order = append(order, fa.X)
+				}
+				lits[fa.X][fieldName(fa.X.Type(), fa.Field)] = src
+			}
+		}
+		for _, l := range order {
+			fs := lits[l]
+			if fs["Id"] != "PartId" {
+				continue // not built from a part row
+			}
+			n++
+			missing := ""
+			for k, v := range want {
+				if fs[k] != v {
+					missing = k
+				}
+			}
+			pos := token.NoPos
+			if ins, ok := l.(ssa.Instruction); ok {
+				pos = posOf(ins)
+			}
+			r.Check(missing == "", rule, fmt.Sprintf("%s: Part from part row #%d", shortSQLFunc(fn), n), pos, "all recorded fields copied", "the Part built from a part row lacks "+missing+" (← "+want[missing]+"): with the store name missing the part is resolved in the default store — an object whose data was routed or transitioned to another store becomes unreadable on this path")
+		}
+	}
+	_ = partT
 }
